@@ -339,6 +339,95 @@ def run(check, mirror, tier):
     ops.jobs_for(check, mirror, rb, crate_fe, None, fv_.Universe(mirror), jobs, tier, KNOWN_PRED, select={"function_positional_job"})
     run_parallel(check, jobs)
 
+    # --- sort(list, precedes): the user-defined ordering function may be ANY function, also one that is no order at all -----------------------
+    # std contract (since Rust 1.81): slice::sort_by may panic when the comparator does not implement a total order. The comparator core::sort
+    # derives from the FEEL function is a total order only if cmp(a, b) = Less goes with cmp(b, a) = Greater and Equal with Equal.
+    check.bounds.append("sort: lists of 0..3 items, the ordering function an oracle answering every (x, y) with an arbitrary Boolean or a non-Boolean")
+    check.assumptions.append("sort: slice::sort_by / sort_unstable_by may panic whenever its comparator is not antisymmetric on some pair of items (std contract); a sort the "
+                             "repository implements itself is executed from its MIR")
+
+    def sort_job():
+        Uv = fv.Universe(mirror)
+        NUMI, BOOLI, NULLI, FDI, LISTI = Uv.idx("Number"), Uv.idx("Boolean"), Uv.idx("Null"), Uv.idx("FunctionDefinition"), Uv.idx("List")
+
+        def setup(ex, st):
+            n = ex.fresh_int(st, "usize", "list_len", constrain=False)
+            ex.assume(st, z3.And(n.e >= 0, n.e <= 3))
+            items = [En("Value", z3.IntVal(NUMI), {"Number": (Opaque("FeelNumber", z3.IntVal(100 + k)),)}) for k in range(3)]
+            lst = En("Value", z3.IntVal(LISTI), {"List": (Adt("struct", "Values", (VecV(n.e, items, "Value"),)),)})
+            params = VecV(z3.IntVal(2), [Adt("tuple", None, (Opaque("Name", z3.IntVal(20 + k)), Opaque("FeelType", ("param", k)))) for k in range(2)], "param")
+            fd = En("Value", z3.IntVal(FDI), {"FunctionDefinition": (params, Opaque("FunctionBody"), Opaque("FeelType", "result"))})
+
+            def m_body(ex, st, callee, a, dest_ty):
+                k = ex.fresh_int(st, "u8", "answer", constrain=False)    # 0 true, 1 false, 2 no Boolean
+                ex.assume(st, z3.And(k.e >= 0, k.e <= 2))
+                st.log.append(("asked", k.e))
+                yield st, En("Value", z3.If(k.e == 2, z3.IntVal(NULLI), z3.IntVal(BOOLI)), {"Boolean": (Sc(k.e == 0, "bool"),), "Null": (none(),)})
+
+            def m_sort_total(ex, st, callee, args, dest_ty):
+                """std's sort_by: fine (and delegated to the insertion-sort model) when the comparator is antisymmetric on every pair, else it may panic"""
+                from mir.models import call_fn_value
+                r, f = args
+                sorted_or_panic.ctx = (callee, args, f)
+                base = r
+                while isinstance(ex.read(st, base.cell, base.projs), Ref):
+                    base = ex.read(st, base.cell, base.projs)
+                v0 = ex.read(st, base.cell, base.projs)
+                for st_n, nn in ex.enum_values(st, v0.len, limit=len(v0.items) + 2):
+                    v = VecV(z3.IntVal(nn), tuple(v0.items[:nn]), v0.elem_ty)
+                    ex.write(st_n, base.cell, base.projs, v)
+                    yield from sorted_or_panic(st_n, v, nn)
+
+            def sorted_or_panic(st, v, nn, _unused=None):
+                from mir.models import call_fn_value
+                callee, args, f = sorted_or_panic.ctx
+
+                def pairs(st, todo):
+                    if not todo:
+                        yield from fv.m_sort_by(ex, st, callee, args, None)
+                        return
+                    i, j = todo[0]
+                    ra, rb_ = Ref(ex.new_cell(st, v.items[i], "cmp")), Ref(ex.new_cell(st, v.items[j], "cmp"))
+                    for o1 in call_fn_value(ex, st, f, [ra, rb_]):
+                        if o1.kind != "return":
+                            yield o1
+                            continue
+                        for o2 in call_fn_value(ex, o1.st, f, [rb_, ra]):
+                            if o2.kind != "return":
+                                yield o2
+                                continue
+                            anti = z3.And((o1.value.disc == -1) == (o2.value.disc == 1), (o1.value.disc == 1) == (o2.value.disc == -1))
+                            for st3 in ex.branch(o2.st, z3.Not(anti)):
+                                yield Outcome("panic", st3, msg="slice::sort_by with a comparator that is no total order (Less one way, not Greater the other way): the standard library may panic")
+                            for st3 in ex.branch(o2.st, anti):
+                                yield from pairs(st3, todo[1:])
+                yield from pairs(st, [(i, j) for i in range(nn) for j in range(i + 1, nn)])
+            models = [(re.compile(r"^(dmntk_feel::)?FunctionBody::evaluate$"), m_body),
+                      (re.compile(r"^(core|std)::slice::<impl \[.*\]>::sort(_unstable)?_by::<.*>$"), m_sort_total)]
+
+            def runner(ex, st):
+                ex.models[:0] = models
+                yield from ex.run("sort", [Ref(ex.new_cell(st, lst, "list")), Ref(ex.new_cell(st, fd, "fn"))], st)
+            return runner, None, {"list_len": n.e}
+
+        WITNESS = ("sort([0,17,11,5,22,16,10,4,21,15,9,3,20,14,8,2,19,13,7,1,18,12,6,0,17,11,5,22,16,10,4,21,15,9,3,20,14,8,2,19], "
+                   "function(x,y) modulo(x*7,11) < modulo(y*3,11))")
+
+        def replay(i, rb):
+            """std detects an inconsistent comparator only on longer inputs: the confirmation uses a 40-item list and an ordering function that is no order"""
+            _, out, _ = replay_call(rb, ["feel", WITNESS])
+            return out.startswith("PANIC"), "sort of 40 numbers by function(x,y) modulo(x*7,11) < modulo(y*3,11) -> %s" % out[:110]
+        crate_s = MirCrate(mirror, ["feel-evaluator", "feel"], overflow_checks=True)
+        jobs2.append(lambda c: decide(c, crate_s, "no_panic/sort", setup, no_post, replay, rb, models=SCOPE_MODELS_ + fv.VALUE_MODELS, unwind=40, describe=lambda m, v: {"list_len": model_value(m, v["list_len"])},
+                                      min_paths=2, max_cex=1, budget_s=600))
+    from checks.C13 import SCOPE_MODELS as SCOPE_MODELS_
+
+    def no_post(ex, o, inputs):
+        return []
+    jobs2 = []
+    sort_job()
+    run_parallel(check, jobs2)
+
     # --- numeric aggregates over lists that mix numbers and nulls at any position: no panic (the obligations C02 decides: a panic on any path is a
     # counterexample there as well; they are run here under this property's name because "never a crash" is this property's statement)
     from checks import C02 as _c02
